@@ -319,6 +319,14 @@ def run_impl(w: World, calls):
             'mkeys': (circ.all_measurement_key_names(), fresh.all_measurement_key_names()),
             'frozen_moments': (w.ids(circ.freeze()), w.ids(circ)),
         }
+        # a circuit thawed from the frozen view belongs to the caller: editing it changes nothing anybody else sees
+        fz = circ.freeze()
+        thaw = fz.unfreeze(copy=False)
+        thaw.append(cirq.X(cirq.NamedQubit('probe')))
+        checks['thawed_copy_is_private:unfreeze'] = (fz.unfreeze(), fresh)
+        checks['thawed_copy_is_private:unfreeze(copy=False)'] = (fz.unfreeze(copy=False), fresh)
+        checks['thawed_copy_is_private:frozen*2'] = ((fz * 2).unfreeze(), fresh * 2)
+        checks['thawed_copy_is_private:frozen'] = (fz, fresh.freeze())
         for name, (a, b) in checks.items():
             if a != b:
                 stale.append((len(outs) - 1, name, repr(a)[:200], repr(b)[:200]))
